@@ -155,11 +155,76 @@ _side = Contract(
     ensures=['implies(self._name.tree_name is None, result == False)'],
 )
 
-CONTRACTS = [_line, _column, _tree_start, _tree_string, _def_start, _def_end, _line_code, _def_ref, _side]
+def _replay_check_fs(inp):
+    """a project file in a legacy encoding with a PEP 263 coding line, found by the text search only"""
+    from pyvc.replay import run_real
+    import re
+    import tempfile
+    import shutil
+    import jedi
+    from parso import python_bytes_to_unicode
+    from jedi.file_io import FileIO
+    from jedi.inference.references import _check_fs
+    d = tempfile.mkdtemp(prefix='c17_', dir='/var/tmp')
+    try:
+        text = '# -*- coding: %s -*-\nlabel = "%s"; wanted_name = 1\n' % (inp['encoding'], inp['text'])
+        raw = text.encode(inp['encoding'])
+        path = os.path.join(d, 'legacy.py')
+        with open(path, 'wb') as f:
+            f.write(raw)
+        state = jedi.Script('', path=os.path.join(d, 'main.py'), project=jedi.Project(d))._inference_state
+        got = []
+        out = run_real(lambda: got.append(_check_fs(state, FileIO(path), re.compile(r'\bwanted_name\b'))))
+        ctx = got[0] if got else None
+        parsed = ''.join(ctx.code_lines) if ctx is not None else None
+        return {'PARSED_TEXT': parsed, 'EXPECTED_TEXT': python_bytes_to_unicode(raw, errors='replace'),
+                'REAL_TEXT': text}, out
+    finally:
+        shutil.rmtree(d, ignore_errors=True)
+
+
+_check_fs = Contract(
+    id='C17._check_fs', prop='C17',
+    clause='a project file found by the text search is parsed from its bytes decoded the way Python decodes source '
+           '(PEP 263 coding line, BOM; parso.python_bytes_to_unicode): positions and get_line_code() of references '
+           'in it refer to the real text',
+    file='jedi/inference/references.py', qualname='_check_fs',
+    params={'inference_state': ANY, 'file_io': Obj('FIO17'), 'regex': Obj('Regex17')},
+    families=['FIO17', 'Regex17', 'KFIO17', 'Mod17'], ret=Opt(ANY),
+    ensures=['implies(result is not None, result == load_module_from_path(inference_state, KnownContentFileIO('
+             'file_io.path, python_bytes_to_unicode(raw_of(file_io), errors="replace"))).as_context())',
+             'implies(result is not None, regex.search(python_bytes_to_unicode(raw_of(file_io), errors="replace")))'],
+    witness={}, replay=_replay_check_fs, concrete_only=True,
+    witness_library=[{'encoding': 'gbk', 'text': '\u4e2d\u6587\u6807\u7b7e'}, {'encoding': 'latin-1', 'text': 'caf\xe9 \xfcber'},
+                     {'encoding': 'utf-8', 'text': '\u4e2d\u6587'}],
+    concrete_ensures=['PARSED_TEXT == EXPECTED_TEXT', 'PARSED_TEXT == REAL_TEXT'],
+)
+
+CONTRACTS = [_line, _column, _tree_start, _tree_string, _def_start, _def_end, _line_code, _def_ref, _side, _check_fs]
 
 
 def register(reg):
     _leaf_axioms(reg)
+    reg.add_family(Family('FIO17', attrs={'path': ANY}, methods={
+        'read': FnSpec('FileIO.read', ret=ANY, raises=['FileNotFoundError'], ensures=['result == raw_of(self)'],
+                       assumed=True, note='the bytes of the file')}))
+    reg.add_family(Family('Regex17', methods={'search': FnSpec('Pattern.search', params=[('s', STR)], ret=BOOL,
+                                                               pure=True, assumed=True)}))
+    reg.add_family(Family('KFIO17', attrs={'path': ANY, '_content': STR}))
+    reg.add_family(Family('Mod17', methods={
+        'is_compiled': FnSpec('ModuleValue.is_compiled', ret=BOOL, pure=True, assumed=True),
+        'as_context': FnSpec('ModuleValue.as_context', ret=ANY, pure=True, assumed=True)}))
+    reg.names['raw_of'] = FnSpec('raw_of', params=[('file_io', Obj('FIO17'))], ret=ANY, pure=True, assumed=True,
+                                 note='ghost: the bytes currently stored in the file')
+    reg.names['python_bytes_to_unicode'] = FnSpec(
+        'python_bytes_to_unicode', params=[('source', ANY), ('encoding', STR), ('errors', STR)],
+        defaults={'encoding': 'utf-8', 'errors': 'strict'}, ret=STR, pure=True, assumed=True,
+        note='parso: decoding per PEP 263 / BOM')
+    reg.names['KnownContentFileIO'] = FnSpec('KnownContentFileIO', params=[('path', ANY), ('content', STR)],
+                                             ret=Obj('KFIO17'), pure=True, assumed=True)
+    reg.names['load_module_from_path'] = FnSpec(
+        'load_module_from_path', params=[('inference_state', ANY), ('file_io', Obj('KFIO17'))], ret=Obj('Mod17'),
+        pure=True, assumed=True, note='parses the given content (C09/C12 contracts)')
 
 
 def structural_names(repo):
